@@ -2637,12 +2637,17 @@ void Analyser::AnalyserImpl::analyseModel(const ModelPtr &model)
 
     for (const auto &primaryExternalVariable : primaryExternalVariables) {
         std::string description;
+
+        // Note: the primary variable of an equivalence class may have changed
+        //       since the variables were marked, so retrieve it again.
+
+        auto primaryVariable = Analyser::AnalyserImpl::internalVariable(primaryExternalVariable.first)->mVariable;
         auto isVoi = (mModel->mPimpl->mVoi != nullptr)
-                     && (primaryExternalVariable.first == mModel->mPimpl->mVoi->variable());
+                     && (primaryVariable == mModel->mPimpl->mVoi->variable());
         auto equivalentVariableCount = primaryExternalVariable.second.size();
         auto hasPrimaryVariable = std::find(primaryExternalVariable.second.begin(),
                                             primaryExternalVariable.second.end(),
-                                            primaryExternalVariable.first)
+                                            primaryVariable)
                                   != primaryExternalVariable.second.end();
 
         if (isVoi || (equivalentVariableCount > 1) || !hasPrimaryVariable) {
@@ -2672,8 +2677,8 @@ void Analyser::AnalyserImpl::analyseModel(const ModelPtr &model)
                 if ((equivalentVariableCount == 1) && hasPrimaryVariable) {
                     description += " the";
                 } else {
-                    description += " equivalent to variable '" + primaryExternalVariable.first->name()
-                                   + "' in component '" + owningComponent(primaryExternalVariable.first)->name()
+                    description += " equivalent to variable '" + primaryVariable->name()
+                                   + "' in component '" + owningComponent(primaryVariable)->name()
                                    + "', the primary";
                 }
 
@@ -2686,8 +2691,8 @@ void Analyser::AnalyserImpl::analyseModel(const ModelPtr &model)
                                    " are marked as external variables, but they are";
                 description += (equivalentVariableCount > 2) ? " all" : "";
                 description += (equivalentVariableCount == 1) ? "" : " equivalent.";
-                description += " Variable '" + primaryExternalVariable.first->name()
-                               + "' in component '" + owningComponent(primaryExternalVariable.first)->name()
+                description += " Variable '" + primaryVariable->name()
+                               + "' in component '" + owningComponent(primaryVariable)->name()
                                + "' is";
                 description += hasPrimaryVariable ?
                                    " the" :
@@ -2704,7 +2709,7 @@ void Analyser::AnalyserImpl::analyseModel(const ModelPtr &model)
             issue->mPimpl->setDescription(description);
             issue->mPimpl->setLevel(Issue::Level::MESSAGE);
             issue->mPimpl->setReferenceRule(referenceRule);
-            issue->mPimpl->mItem->mPimpl->setVariable(primaryExternalVariable.first);
+            issue->mPimpl->mItem->mPimpl->setVariable(primaryVariable);
 
             addIssue(issue);
         }
